@@ -186,6 +186,19 @@ impl RosSys {
                     limit,
                 };
                 let r = crate::util::catch(|| run_ros(&case)).ok().and_then(|o| o.ok())?;
+                // the other legitimate description of the same chain (summed WCETs); a claim is
+                // a claim, the model is checked against the smaller one
+                let case2 = RosCase::ChainSummed {
+                    supply: supply.clone(),
+                    src: src.clone(),
+                    costs: costs.clone(),
+                    others: vec![ac(other)],
+                    limit,
+                };
+                let r = match crate::util::catch(|| run_ros(&case2)).ok().and_then(|o| o.ok()) {
+                    Some(r2) => r.min(r2),
+                    None => r,
+                };
                 let spec = self.exec_spec();
                 // the last chain callback is the one without successor and without own source
                 let last = spec
